@@ -5,6 +5,11 @@ V = os.path.dirname(os.path.dirname(os.path.abspath(__file__)))
 ALL = ['C%02d' % i for i in range(1, 21)]
 
 CLAIMED = {
+ 'C02': dict(
+   technique='Lean 4 proof: refinement (simulation relation + induction over the command list) of a token-level model of Path._parse_path to a reference interpreter written from SVG 1.1 section 8.3; models tied by exhaustive/random token-level correspondence and an exhaustive tokenizer correspondence',
+   text='Proof. parse_refines_spec: for EVERY grammatical program - an initial moveto followed by any number of commands over the 20 letters, any arguments, each letter present or omitted where SVG permits (implicit repetition, lineto after moveto) - the model of the parser loop (command / last_command / absolute state, M->L rewriting, CS/QT tests, reflection, closepath, H/V, zero-radius and zero-length arcs) returns exactly the segments and closed flag of the reference interpreter, whose state is (current point, subpath start, remembered cubic/quadratic control). Law-free except commutativity of +, so it is a statement about floats. The pre-repair parser is refuted by a kernel-checked witness (S after Z). The parser model is executed against parse_path on all programs of <=2 (quick) / <=3 (thorough) commands over the 20 letters, random programs to length 12 and a malformed stream (error kinds compared); the tokenizer model against Path._tokenize_path on every string of length <=4/5 over the 9 characters that matter. A sampler compares parse_path with an independent string-level reference interpreter across number classes and 7 spellings.',
+   note='Trusted: kernel + standard axioms; CPython float() and re; correspondence runners. No Lean theorem yet about the tokenizer (tied by exhaustive correspondence only). Arc() internals are C04. Known finding F5 (arc flags without separators) reported as KNOWN-FINDING.',
+   ref='7 C02'),
  'C03': dict(
    technique='Lean 4 proof: ring identities + Mathlib calculus on definitions regenerated from path.py by a tracing translator (generic and coincident-control-point traces)',
    text='Proof. point/poly/poly1d call/points/poly2bez/bpoints2bezier/bez2poly/derivative(n=1..5) of Line, QuadraticBezier, CubicBezier are traced from the running code on opaque ring elements every run and proved equal to the Bernstein form, its monomial coefficients and their formal derivatives over every field of characteristic 0; the formal derivative is proved to be the analytic n-th derivative (iteratedDeriv) over R and C, incl. real parameter with complex control points, and to vanish for all n above the degree. Coincident control-point configurations are traced as separate cases. A float sampler with mutate-then-query sequences covers rounding and object state.',
